@@ -735,11 +735,12 @@ class ServiceInfo(RecordUpdateListener):
         """
         cache = zc.cache
         original_server_key = self.server_key
-        cached_srv_record = cache.get_by_details(self._name, _TYPE_SRV, _CLASS_IN)
-        if cached_srv_record:
+        # Go through every cached SRV and TXT record of the instance, oldest
+        # first: an expired copy that has not been purged yet is rejected and
+        # must not hide a live one that was refreshed in place
+        for cached_srv_record in cache.get_all_by_details(self._name, _TYPE_SRV, _CLASS_IN):
             self._process_record_threadsafe(zc, cached_srv_record, now)
-        cached_txt_record = cache.get_by_details(self._name, _TYPE_TXT, _CLASS_IN)
-        if cached_txt_record:
+        for cached_txt_record in cache.get_all_by_details(self._name, _TYPE_TXT, _CLASS_IN):
             self._process_record_threadsafe(zc, cached_txt_record, now)
         if original_server_key == self.server_key:
             # If there is a srv which changes the server_key,
